@@ -186,3 +186,14 @@ def register(claim):
                'precision on one object.',
           note=NOTE_COMMON + ' Categorical = string; no half-way rounding cases; file entry points on dtypes the format preserves.',
           ref='DESIGN.md section 5, C05')
+    claim('C17',
+          technique='TLA+ case analysis (Cli.tla): flags -> keyword arguments, contradictory pairs, exit status and whether output may '
+                    'be left; TLC enumerates every flag set of <= 4 flags per command; each is run for real through main_with_argv '
+                    '(and subprocesses for stdin / stdout / exit status) next to the library call with the specified keywords; every '
+                    'invocation is a trace line judged by Trace_Cli',
+          text='1536 flag sets (discover 3 flags, verify 6, detect 14) x csv / parquet input with plain and dotted file names x explicit / '
+               'default constraints file (with a decoy sibling) x csv / parquet output x {valid, missing input, missing constraints, '
+               'unknown flag}: constraints files compared with discover_df on load_df(file) minus creation metadata, verdict maps and '
+               'counts with verify_df, detection files byte for byte with detect_df; discover -> verify closure; exit statuses.',
+          note=NOTE_COMMON + ' Known finding D30 (-a with -f, -r with -R accepted).',
+          ref='DESIGN.md section 5, C17')
